@@ -666,7 +666,8 @@ Qed.
 
 (* key ids stay uint32 along every history whose inputs are uint32 *)
 Definition op_bounded (o : op) : Prop :=
-  match o with OAddKey (Some id) _ => id < id_bound | _ => True end.
+  (* the internal AddKeyWithOpts is outside the histories of this theorem *)
+  match o with OAddKey (Some id) _ => id < id_bound | OAddOpts _ _ _ => False | _ => True end.
 
 Definition SB (s : state) : Prop :=
   ents_bounded (ents (smgr s)) /\ Forall (fun x => x < id_bound) (stape s)
@@ -699,7 +700,7 @@ Proof.
   assert (NH : forall b c k h, snd (add_fresh s b c k) <> RHandle h).
   { intros b c k h. unfold add_fresh.
     destruct (new_random_id _ _ _) as [[[[? ?] ?] ?]|]; [destruct c|]; simpl; discriminate. }
-  destruct o as [t|raw|req k|id|id|id|id| |n]; simpl.
+  destruct o as [t|raw|req k|req k opts|id|id|id|id| |n]; simpl; [| | |destruct HO| | | | | |].
   - destruct t; try (split; [apply add_fresh_bounded; auto | intros h H; exfalso; eapply NH; eauto]);
       (split; [exact HS | simpl; discriminate]).
   - split; [apply add_fresh_bounded; auto | intros h H; exfalso; eapply NH; eauto].
